@@ -205,6 +205,17 @@ def closure_consumer(fn, local):
     return None
 
 
+def spawn_closures(fn):
+    """Closures built in this body (after helper inlining) that are handed to rayon's ThreadPool::spawn:
+    [(bb, si, local, closure_path, captures, spawn_bb, spawn_term)]. Identified by role, not by path."""
+    out = []
+    for c in closure_creations(fn):
+        cons = closure_consumer(fn, c[2])
+        if cons is not None and callee(cons[1]) == "rayon::ThreadPool::spawn":
+            out.append(c + (cons[0], cons[1]))
+    return out
+
+
 def switch_edges_for(fn, bi):
     """For a switch block return {target_bb: [values]} (otherwise => None in list)."""
     t = fn.blocks[bi]["term"]
@@ -441,3 +452,181 @@ def relation(cond):
 
 def flip(rel):
     return {"lt": "gt", "gt": "lt", "eq": "eq"}[rel]
+
+
+# ---------------------------------------------------------------- guard typestate (worker mutex)
+
+class GuardStates:
+    """Forward must-dataflow over the normal CFG of one body: which local holds the worker mutex guard.
+    Values: 'G' guard, 'S' Some(guard), 'O' Option<guard> fresh from a try-lock (unknown), absent = nothing held.
+    Tracks the guard through moves, `Some(g)` wrapping, `(opt as Some).0` unwrapping and discriminant switches,
+    so a lock taken in an (inlined) helper that returns `Option<Guard>` is followed like a direct lock."""
+
+    LOCK = ("::lock_arc",)
+    TRY = ("::try_lock_arc_for", "::try_lock_arc", "::try_lock_arc_until")
+
+    def __init__(self, fn):
+        self.fn = fn
+        self.IN = {}
+        self.pre_term = {}
+        self.acquired_edges = []   # (bb, succ): the guard is held from this edge on
+        self.failed_edges = []     # (bb, succ): a try-lock result was found to be None on this edge
+        self.moved_into = {}       # bb -> description (closure / call) the guard was handed to
+        self._run()
+
+    @staticmethod
+    def _plain(p):
+        return p is not None and not p["p"]
+
+    def _block(self, bi, st):
+        fn = self.fn
+        st = dict(st)
+        disc = dict(st.get("#disc", {}))
+        for s in fn.blocks[bi]["stmts"]:
+            if s["k"] != "assign":
+                continue
+            lhs, rv = s["lhs"], s["rv"]
+            newv = None
+            if "use" in rv:
+                o = rv["use"]
+                p = o.get("move") or o.get("copy")
+                if p is not None:
+                    if self._plain(p) and p["l"] in st:
+                        newv = st[p["l"]]
+                        if "move" in o:
+                            del st[p["l"]]
+                    elif len(p["p"]) == 2 and isinstance(p["p"][0], dict) and p["p"][0].get("downcast") == 1 \
+                            and isinstance(p["p"][1], dict) and p["p"][1].get("f") == 0 and st.get(p["l"]) == "S":
+                        newv = "G"
+                        if "move" in o:
+                            del st[p["l"]]
+            elif rv.get("agg") == "adt" and rv.get("adt", "").endswith("option::Option") and rv.get("variant") == "Some":
+                o = rv["ops"][0]
+                p = o.get("move") or o.get("copy")
+                if p is not None and self._plain(p) and st.get(p["l"]) == "G":
+                    newv = "S"
+                    del st[p["l"]]
+            elif rv.get("agg") == "closure":
+                for o in rv["ops"]:
+                    p = o.get("move")
+                    if p is not None and self._plain(p) and st.get(p["l"]) in ("G", "S"):
+                        del st[p["l"]]
+                        self.moved_into[bi] = "closure " + rv.get("closure", "?")
+            elif "discr" in rv and self._plain(rv["discr"]) and self._plain(lhs):
+                disc[lhs["l"]] = rv["discr"]["l"]
+            if self._plain(lhs):
+                if newv is not None:
+                    st[lhs["l"]] = newv
+                elif "discr" not in rv:
+                    st.pop(lhs["l"], None)
+                    disc.pop(lhs["l"], None)
+        st["#disc"] = disc
+        return st
+
+    def _edges(self, bi, st):
+        """Yield (succ, state) for the normal successors of block bi."""
+        fn = self.fn
+        t = fn.blocks[bi]["term"]
+        k = t["k"]
+        if k == "call":
+            c = callee(t)
+            out = dict(st)
+            for a in t["args"]:
+                p = a.get("move")
+                if p is not None and self._plain(p) and out.get(p["l"]) in ("G", "S", "O"):
+                    del out[p["l"]]
+                    self.moved_into[bi] = "call " + c
+            d = t["dest"]
+            if self._plain(d):
+                out.pop(d["l"], None)
+                if c.endswith(self.LOCK):
+                    out[d["l"]] = "G"
+                    if t["target"] is not None and (bi, t["target"]) not in self.acquired_edges:
+                        self.acquired_edges.append((bi, t["target"]))
+                elif c.endswith(self.TRY):
+                    out[d["l"]] = "O"
+            if t["target"] is not None:
+                yield t["target"], out
+        elif k == "drop":
+            out = dict(st)
+            p = t["place"]
+            if self._plain(p):
+                out.pop(p["l"], None)
+            yield t["target"], out
+        elif k == "switch":
+            o = t["discr"]
+            p = o.get("move") or o.get("copy")
+            src = None
+            if p is not None and self._plain(p):
+                src = st.get("#disc", {}).get(p["l"])
+            v = st.get(src) if src is not None else None
+            arms = {b: val for val, b in t["arms"]}
+            for s in fn.succ[bi]:
+                if v in ("O", "S"):
+                    out = dict(st)
+                    if arms.get(s) == 1:
+                        out[src] = "S"
+                        if v == "O" and (bi, s) not in self.acquired_edges:
+                            self.acquired_edges.append((bi, s))
+                        yield s, out
+                    else:
+                        if v == "S":
+                            continue  # infeasible: the option is known to be Some
+                        del out[src]
+                        if (bi, s) not in self.failed_edges:
+                            self.failed_edges.append((bi, s))
+                        yield s, out
+                else:
+                    yield s, st
+        else:
+            for s in fn.succ[bi]:
+                yield s, st
+
+    @staticmethod
+    def _join(a, b):
+        if a is None:
+            return b
+        out = {}
+        for k in a:
+            if k == "#disc":
+                continue
+            if k in b:
+                x, y = a[k], b[k]
+                if x == y:
+                    out[k] = x
+                elif {x, y} <= {"S", "O"}:
+                    out[k] = "O"
+        da, db = a.get("#disc", {}), b.get("#disc", {})
+        out["#disc"] = {k: v for k, v in da.items() if db.get(k) == v}
+        return out
+
+    def _run(self):
+        fn = self.fn
+        self.IN = {0: {"#disc": {}}}
+        work = [0]
+        n = 0
+        while work:
+            n += 1
+            if n > 20000:
+                raise Inconclusive("guard typestate did not converge in %s" % fn.path)
+            b = work.pop()
+            st = self._block(b, self.IN[b])
+            self.pre_term[b] = st
+            for s, out in self._edges(b, st):
+                if s not in fn.live:
+                    continue
+                j = self._join(self.IN.get(s), out)
+                if j != self.IN.get(s):
+                    self.IN[s] = j
+                    work.append(s)
+
+    def held(self, bi):
+        """Is a guard certainly held when the terminator of block bi executes?"""
+        st = self.pre_term.get(bi)
+        if st is None:
+            return False
+        return any(v in ("G", "S") for k, v in st.items() if k != "#disc")
+
+    def holder(self, bi):
+        st = self.pre_term.get(bi) or {}
+        return [k for k, v in st.items() if k != "#disc" and v in ("G", "S")]
